@@ -86,3 +86,15 @@ package sub
 //@   before select#1 assert selwaits(c.closeQ)
 //@
 // ---- end generated wake-on-close contracts ----
+// ---- generated default contracts (tools/gen_default_contracts.py) ----
+//@ func NewProtocol
+//@   ensures cast("*socket", result).closed == false
+//@   ensures cast("*socket", result).master != nil && cast("*socket", result).master.s == cast("*socket", result)
+//@   ensures cast("*socket", result).master.recvQLen == 128
+//@   ensures cast("*socket", result).master.recvQ != nil && cap(cast("*socket", result).master.recvQ) == cast("*socket", result).master.recvQLen
+//@   ensures cast("*socket", result).master.closeQ != nil && !closed(cast("*socket", result).master.closeQ)
+//@   ensures cast("*socket", result).master.sizeQ != nil && !closed(cast("*socket", result).master.sizeQ)
+//@   ensures cast("*socket", result).master.recvExpire == 0
+//@   ensures cast("*socket", result).master.closed == false
+//@
+// ---- end generated default contracts ----
